@@ -21,7 +21,7 @@ impl Prop for C01 {
         "exploration"
     }
     fn rule(&self) -> String {
-        "run = seeded valid writer history (start/append/end/add interleaved, boundary-biased piece sizes relative to the variant's constants) on one of the variants s0/s1/prodv/prod x 4 layer sets x level 0..11 x 1..4 recipients, written to the simulated sink with full transfers, then read back through the simulated source; the first 4104 runs enumerate every content length 0..512 on s0 for 1- and 2-file archives x 4 layer sets. Oracle: listing == model names, size, bytes and stored SHA-256 per file == abstract map model. distinct_nontrivial counts distinct signatures (variant, layers, #files, interleaved, alignment class of content length vs CHUNK and BLOCK, alignment class of the encryption-layer plaintext vs CHUNK, name kinds).".into()
+        "run = seeded valid writer history (start/append/end/add interleaved, boundary-biased piece sizes relative to the variant's constants) on one of the variants s0/s1/prodv/prod x 4 layer sets x level 0..11 x 1..4 recipients, written to the simulated sink with full transfers, then read back through the simulated source; the first 4104 runs enumerate every content length 0..512 on s0 for 1- and 2-file archives x 4 layer sets. Oracle: listing == model names, size, bytes and stored SHA-256 per file == abstract map model. distinct_nontrivial counts distinct signatures (variant, layers, #files, interleaved, alignment class of content length vs CHUNK and BLOCK, alignment class of the encryption-layer plaintext vs CHUNK, alignment class of the file-layer stream length vs BLOCK (compression) or CHUNK, name kinds). Half of the production-size runs are ALIGNED by a solver: a model of the file-layer stream length (blocks + marker + index footer) grows one piece so that the stream handed to the compression layer is exactly k*4 MiB (or +1, -1), respectively the encryption-layer plaintext exactly k*128 KiB (or +1, 15, 16, 17, -1).".into()
     }
     fn assumptions(&self) -> Vec<String> {
         vec![
@@ -78,8 +78,30 @@ impl Prop for C01 {
             finalize: true,
             piece_scheds: false,
         };
-        let ops = gen_ops(&mut rng, &c, &o);
-        Case::new("C01", cfg, ops)
+        let mut ops = gen_ops(&mut rng, &c, &o);
+        let mut cfg = cfg;
+        let mut aligned = 0i64;
+        if big && rng.chance(1, 2) {
+            // solve for alignment at the REAL constants: the stream handed to the first layer ends
+            // exactly on / next to a block edge (compression) or a chunk edge (encryption only)
+            if cfg.comp() {
+                cfg.level = cfg.level.min(6);
+                let r = *rng.pick(&[0usize, 0, 0, 1, vc.block as usize - 1]);
+                if align_stream(&mut ops, vc.block as usize, r) {
+                    aligned = 1;
+                }
+            } else if cfg.enc() {
+                let r = *rng.pick(&[0usize, 0, 1, 15, 16, 17, vc.chunk as usize - 1]);
+                if align_stream(&mut ops, vc.chunk as usize, r) {
+                    aligned = 2;
+                }
+            }
+        }
+        let mut case = Case::new("C01", cfg, ops);
+        if aligned != 0 {
+            case.params.insert("aligned".into(), aligned);
+        }
+        case
     }
     fn exec(&self, case: &Case, ctx: &mut Ctx) -> Vec<Violation> {
         let s = sut(&case.cfg.variant);
@@ -110,6 +132,16 @@ impl Prop for C01 {
             n => n as usize,
         };
         v.extend(check_readback(s, &image, &rcfg, &model, buf, ctx, "rt"));
+        // the stream-length model used by the alignment solver must agree with the real image (harness self-check)
+        if !case.cfg.comp() {
+            let stream = image.len().saturating_sub(header_len(&case.cfg));
+            let plain = if case.cfg.enc() { enc_plain_len(stream, vc.chunk as usize) } else { stream };
+            if plain != stream_len(&case.ops) {
+                ctx.probe("stream-length-model-mismatch");
+            } else {
+                ctx.probe("stream-length-model-agrees");
+            }
+        }
         // signature
         let total: usize = model.files.values().map(Vec::len).sum();
         let chunk = vc.chunk as usize;
@@ -121,7 +153,7 @@ impl Prop for C01 {
         let mut nk: Vec<&str> = names.clone();
         nk.sort();
         nk.dedup();
-        ctx.sig(format!("{}|{}|f{}|i{}|c{}|b{}|e{}|{}", case.cfg.variant, case.cfg.layer_name(), model.files.len().min(4), inter, align_class(total, chunk), align_class(total, block), encp, nk.join("+")));
+        ctx.sig(format!("{}|{}|f{}|i{}|c{}|b{}|e{}|s{}|{}", case.cfg.variant, case.cfg.layer_name(), model.files.len().min(4), inter, align_class(total, chunk), align_class(total, block), encp, align_class(stream_len(&case.ops), if case.cfg.comp() { block } else { chunk }), nk.join("+")));
         v
     }
 }
